@@ -230,8 +230,8 @@ def check_order(rec, acc, ranges, spec, case, fam):
             return
 
 
-LANG = ["en", "en-US", "en_us", "EN-gb", "de", "*", "fr-CA", "zh-Hant-TW"]
-OFF_L = ["en", "en-US", "en-GB", "de", "de-AT", "fr", "zh-Hant", "es"]
+LANG = ["en", "en-US", "en_us", "EN-gb", "de", "*", "fr-CA", "zh-Hant-TW", "fi"]
+OFF_L = ["en", "en-US", "en-GB", "de", "de-AT", "fr", "zh-Hant", "es", "fil-PH", "fi-FI"]  # "fi" / "fil": a 2- and a 3-letter primary tag sharing a prefix
 
 
 def basic_best(items, offers, match):
@@ -262,7 +262,8 @@ def ref_lang(ranges, offers):
     fo = [re.split("[-_]", o, maxsplit=1)[0] for o in offers]
     res = basic_best(items, fo, l_match)
     if res is not None:
-        return next(o for o in offers if o.startswith(res))
+        # the first offer whose *primary tag* is the matched one ("fi" is not the primary tag of "fil-PH")
+        return next(o for o in offers if re.split("[-_]", o, maxsplit=1)[0] == res)
     return None
 
 
